@@ -32,7 +32,7 @@ CHECKS = {
     "C06": ("model_checking", "The yearly list reported by each run (full, truncated, -t on/before/after every transaction date) must equal, as a set of lines, the fold of the "
             "fractions of the same behaviour by <<local year of the event, type, long>>.", "4.1, 6 C06"),
     "C07": ("model_checking", "Balances reported by each run must equal the replay of the account ledger in the spec (acquired/sent/received/final per account, every touched account "
-            "once), and their sum must equal what the fractions of the same behaviour leave unconsumed in lots (Reconcile) - at every prefix and to-date, with and without -n.", "4.2, 4.3, 6 C07"),
+            "once), and their sum must equal what the fractions of the same behaviour leave unconsumed in lots (Reconcile) - at every prefix and to-date, with and without -n; the ledger's arithmetic is also proved for unbounded amounts (Ind_Balances, inductive invariant, Apalache).", "4.2, 4.3, 6 C07"),
     "C08": ("model_checking", "For every prefix of histories that may overdraw accounts (several exchanges/holders, transient overdrafts refilled later, same-instant credit+debit), "
             "with and without -n: rejected with an error naming an overdrawn account iff the spec's ledger goes below -1e-10; never rejected otherwise; with -n the run proceeds and reports the negative balance.", "4.2, 6 C08"),
     "C09": ("model_checking", "One abstract behaviour must explain the run on the full history, the runs on every truncated history and the runs limited by -t: fractions (as sets of "
